@@ -19,6 +19,8 @@
 //	  scope := d (absent) | e ([]) | q | s | b
 //	t <api> <method> <scheme> <host> <path> <query> <frag> <reqhdrs> <status> <reshdrs>
 //	                          one exchange: ModifyRequest then ModifyResponse; frag is the message id "m<k>"
+//	rep <k> <t-args>          the SAME exchange k more times (identical, id included; it may have occurred before, also
+//	                          before a reset): every repetition is an evaluation of its own
 //	tb <n> <t-args>           n exchanges that differ in their id only (frag m<k>, m<k+1>, …): long histories
 //	qh                        GET the verification handler      -> qh <n> <FNV-1a 64 of the messages joined by \n>
 //	q                         GET the verification handler      -> q <n> <message>*n
@@ -1477,6 +1479,22 @@ func (e *ex) Do(op string) core.Result {
 			res.Fail, res.Sig = "right after Set"+map[string]string{"q": "Request", "s": "Response"}[f[1]]+"Modifier: "+rq.Fail, rq.Sig
 		}
 		return res
+	case "rep":
+		if len(f) != 12 || e.im.w != nil {
+			return core.Result{Impl: "bad-op"}
+		}
+		k, err := strconv.Atoi(f[1])
+		m, ok := parseMsg(f[2:])
+		if err != nil || k < 1 || k > 64 || !ok {
+			return core.Result{Impl: "bad-op"}
+		}
+		var a, b bool
+		for i := 0; i < k; i++ {
+			a, b = e.im.traffic(m)
+			e.or.traffic(m)
+		}
+		core.Stats["repeat:identical-exchanges"] += k
+		return core.Result{Impl: "rep " + strconv.Itoa(k) + " " + b01(a) + " " + b01(b)}
 	case "tb":
 		if len(f) != 12 || e.im.w != nil {
 			return core.Result{Impl: "bad-op"}
